@@ -246,10 +246,17 @@ def build_cubed(prog, spec, ctx: Optional[BuildCtx] = None):
     import cubed.array_api as xp
 
     ctx = ctx or BuildCtx()
-    arrs = [build_input(inp, spec, ctx) for inp in prog["inputs"]]
-    for node in prog["nodes"]:
-        op = OPS[node["op"]]
-        arrs.append(op.cub(xp, [arrs[i] for i in node["args"]], node["params"]))
+    arrs = []
+    try:
+        for inp in prog["inputs"]:
+            arrs.append(build_input(inp, spec, ctx))
+        for node in prog["nodes"]:
+            op = OPS[node["op"]]
+            arrs.append(op.cub(xp, [arrs[i] for i in node["args"]], node["params"]))
+    except Exception as e:
+        e.vp_node_index = len(arrs)
+        e.vp_partial = arrs
+        raise
     return arrs
 
 
@@ -346,6 +353,7 @@ PROFILE_WEIGHTS = {
     "dag": {},
     "fusion-rich": {"elementwise": 3, "reduction": 2, "selection": 2, "manip": 1, "chunk": 1},
     "storage-rich": {"rechunk": 6, "chunk": 2, "multi-output": 2},
+    "decline": {"scan": 6, "reduction": 2, "linalg": 3, "manip": 2, "multi": 3, "index": 2, "chunk": 2},
 }
 
 
@@ -382,11 +390,11 @@ def draw_shape(draw, st, max_dims=4, allow_zero=True):
     return shape
 
 
-def draw_chunks(draw, st, shape):
+def draw_chunks(draw, st, shape, many=False):
     out = []
     for s in shape:
         s1 = max(int(s), 1)
-        c = draw(st.sampled_from([1, 2, 3, s1, (s1 + 1) // 2, 4, 5]))
+        c = draw(st.sampled_from([1, 1, 1, 2, s1] if many else [1, 2, 3, s1, (s1 + 1) // 2, 4, 5]))
         out.append(max(1, min(c, s1)))
     return out
 
@@ -413,7 +421,7 @@ def draw_input(draw, st, k, prev_inputs, opts):
         shape = draw_shape(draw, st, opts.get("max_dims", 4), opts.get("allow_zero", True))
     kinds = opts.get("input_kinds") or ["asarray"] * 6 + ["from_array", "from_zarr", "full", "ones", "zeros", "arange", "linspace", "eye"]
     kd = draw(st.sampled_from(kinds))
-    inp = {"kind": kd, "shape": shape, "dtype": dtype, "chunks": draw_chunks(draw, st, shape), "k": k}
+    inp = {"kind": kd, "shape": shape, "dtype": dtype, "chunks": draw_chunks(draw, st, shape, opts.get("many_chunks", False)), "k": k}
     if kd in ("asarray", "from_array", "from_zarr"):
         if kind(dtype) in "fc":
             c = draw(st.integers(0, 9))
@@ -572,7 +580,7 @@ def programs(profile="dag", max_ops=6, min_ops=0, n_inputs=(1, 3), opts=None, ou
                     GEN_STATS["known-region-excluded" if str(e).startswith("KNOWN") else "numpy-invalid-draw"] += 1
                     continue
                 if isinstance(v, tuple):
-                    if any(np.asarray(x).size > MAX_ELEMS for x in v):
+                    if len(v) == 0 or any(np.asarray(x).size > MAX_ELEMS for x in v):
                         continue
                 else:
                     v = np.asarray(v)
